@@ -2,6 +2,8 @@ import Prom.Lemmas.C18Aux
 
 namespace Prom.C18
 open Prom
+/-- a live timer (shared or local) stopped with record and then dropped delivers exactly one
+    observation in total (`d1` at the record, `d2` at the drop) and ends well-formed -/
 theorem record_contributes_one (t : Timer) (h : TimerOk t) (ha : t.alive = true) :
     let (t1, d1) := t.observe true
     let (t2, d2) := t1.dropIt
@@ -10,6 +12,7 @@ theorem record_contributes_one (t : Timer) (h : TimerOk t) (ha : t.alive = true)
   have hobs := ho ha
   cases hk : t.kind <;> simp [Timer.observe, Timer.dropIt, hk, hb, TimerOk]
 
+/-- a live timer stopped with discard and then dropped delivers nothing and ends well-formed -/
 theorem discard_contributes_nothing (t : Timer) (h : TimerOk t) (ha : t.alive = true) :
     let (t1, d1) := t.observe false
     let (t2, d2) := t1.dropIt
@@ -17,12 +20,14 @@ theorem discard_contributes_nothing (t : Timer) (h : TimerOk t) (ha : t.alive = 
   obtain ⟨hb, ho⟩ := h
   simp [Timer.observe, Timer.dropIt, hb, TimerOk]
 
+/-- a live timer that is simply dropped delivers exactly one observation and ends well-formed -/
 theorem drop_contributes_one (t : Timer) (h : TimerOk t) (ha : t.alive = true) :
     (t.dropIt).2 = 1 ∧ TimerOk (t.dropIt).1 ∧ (t.dropIt).1.alive = false := by
   obtain ⟨hb, ho⟩ := h
   have hobs := ho ha
   cases hk : t.kind <;> simp [Timer.observe, Timer.dropIt, hk, hb, hobs, TimerOk]
 
+/-- every operation preserves the invariant `TInv` (the count equation and `TimerOk` of every timer) -/
 theorem step_inv (w : TW) (op : TOp) (h : TInv w) : TInv (w.step op) := by
   obtain ⟨hs, ht⟩ := h
   cases op with
@@ -90,6 +95,7 @@ theorem ended_timer_inert (w : TW) (i : Nat) (t : Timer) (hl : w.timers[i]? = so
     w.step (.record i) = w ∧ w.step (.discard i) = w ∧ w.step (.drop i) = w := by
   simp [TW.step, TW.withTimer, hl, ha]
 
+/-- no timer operation (nor a closure) changes the parent local histogram -/
 theorem parent_untouched (w : TW) (op : TOp) (h1 : op ≠ .pobs) (h2 : op ≠ .pflush) : (w.step op).parent = w.parent := by
   cases op with
   | start k => rfl
@@ -100,8 +106,107 @@ theorem parent_untouched (w : TW) (op : TOp) (h1 : op ≠ .pobs) (h2 : op ≠ .p
   | discard i => exact withTimer_parent _ _ _ _
   | drop i => exact withTimer_parent _ _ _ _
 
+/-- every reachable world satisfies the invariant; in particular every timer of a reachable world
+    is `TimerOk` (nothing buffered; not yet observed while alive), the hypothesis of the per-timer
+    theorems below -/
+theorem reachable_inv (ops : List TOp) : TInv (ops.foldl TW.step {}) := by
+  suffices H : ∀ w, TInv w → TInv (ops.foldl TW.step w) from
+    H {} ⟨rfl, by intro t ht; cases ht⟩
+  induction ops with
+  | nil => intro w h; exact h
+  | cons op r ih => intro w h; exact ih _ (step_inv w op h)
+
+/-- **closure_contributes_one** — `observe_closure_duration` adds exactly one observation to the
+    shared histogram; it creates, ends and changes no timer, and touches neither the parent local
+    histogram nor the other counters of the world (only the ghost count of closures).
+    (The closure's return value is not part of this model: only the number of observations is.) -/
+theorem closure_contributes_one (w : TW) :
+    (w.step .closure).shared = w.shared + 1 ∧
+    (w.step .closure).timers = w.timers ∧
+    (w.step .closure).parent = w.parent ∧
+    (w.step .closure).ended = w.ended ∧
+    (w.step .closure).direct = w.direct ∧
+    (w.step .closure).closures = w.closures + 1 :=
+  ⟨rfl, rfl, rfl, rfl, rfl, rfl⟩
+
+/-- for a LOCAL timer the recording itself delivers nothing to the shared histogram: the
+    observation is buffered in the timer's private clone (`buf`), and it is the drop of the timer
+    (which drops, hence flushes, that clone) that delivers exactly that one observation -/
+theorem local_record_buffers_then_drop_flushes (t : Timer) (h : TimerOk t) (hk : t.kind = .local) :
+    (t.observe true).2 = 0 ∧ (t.observe true).1.buf = 1 ∧
+    ((t.observe true).1.dropIt).2 = 1 ∧ ((t.observe true).1.dropIt).1.buf = 0 ∧
+    ((t.observe true).1.dropIt).1.alive = false := by
+  obtain ⟨hb, _⟩ := h
+  simp [Timer.observe, Timer.dropIt, hk, hb]
+
+/-- **local_timer_reaches_shared** — a live LOCAL timer that is stopped with record
+    (`observe_duration` / `stop_and_record`: the model's `.record i` is the record followed by the
+    drop of the consumed timer) increases the shared histogram by exactly one and leaves the parent
+    local histogram unchanged; a live local timer that is only dropped (`.drop i`) likewise.
+    Afterwards the timer is ended with nothing buffered, and no other timer changed. -/
+theorem local_timer_reaches_shared (w : TW) (i : Nat) (t : Timer) (hl : w.timers[i]? = some t)
+    (hk : t.kind = .local) (ha : t.alive = true) (h : TimerOk t) :
+    ((w.step (.record i)).shared = w.shared + 1 ∧ (w.step (.record i)).parent = w.parent ∧
+      (w.step (.record i)).timers = w.timers.set i { t with observed := true, buf := 0, alive := false }) ∧
+    ((w.step (.drop i)).shared = w.shared + 1 ∧ (w.step (.drop i)).parent = w.parent ∧
+      (w.step (.drop i)).timers = w.timers.set i { t with observed := true, buf := 0, alive := false }) := by
+  obtain ⟨hb, ho⟩ := h
+  have hobs := ho ha
+  simp [TW.step, TW.withTimer, hl, ha, Timer.observe, Timer.dropIt, hk, hb, hobs]
+
+/-- the same for the timers of any reachable world (no well-formedness hypothesis needed) -/
+theorem local_timer_reaches_shared_reachable (ops : List TOp) (i : Nat) (t : Timer)
+    (hl : (ops.foldl TW.step {}).timers[i]? = some t) (hk : t.kind = .local) (ha : t.alive = true) :
+    let w := ops.foldl TW.step {}
+    ((w.step (.record i)).shared = w.shared + 1 ∧ (w.step (.record i)).parent = w.parent) ∧
+    ((w.step (.drop i)).shared = w.shared + 1 ∧ (w.step (.drop i)).parent = w.parent) := by
+  intro w
+  have hok : TimerOk t := (reachable_inv ops).2 t (List.mem_of_getElem? hl)
+  obtain ⟨⟨a, b, _⟩, ⟨c, d, _⟩⟩ := local_timer_reaches_shared w i t hl hk ha hok
+  exact ⟨⟨a, b⟩, ⟨c, d⟩⟩
+
+/-- **discarded_then_dropped_contributes_nothing** — a live timer of either kind stopped with
+    `stop_and_discard` (the model's `.discard i` = observe without recording, then the drop of the
+    consumed timer) adds nothing to the shared histogram, leaves the parent unchanged and is not
+    counted as ended; the timer is then ended with nothing buffered, so dropping it (again), or any
+    later stop, changes nothing at all. -/
+theorem discarded_then_dropped_contributes_nothing (w : TW) (i : Nat) (t : Timer)
+    (hl : w.timers[i]? = some t) (ha : t.alive = true) (h : TimerOk t) :
+    (w.step (.discard i)).shared = w.shared ∧ (w.step (.discard i)).parent = w.parent ∧
+    (w.step (.discard i)).ended = w.ended ∧
+    (w.step (.discard i)).timers = w.timers.set i { t with observed := true, buf := 0, alive := false } ∧
+    (w.step (.discard i)).step (.drop i) = w.step (.discard i) ∧
+    (w.step (.discard i)).step (.record i) = w.step (.discard i) := by
+  obtain ⟨hb, _⟩ := h
+  have hlt : i < w.timers.length := by
+    rcases Nat.lt_or_ge i w.timers.length with h' | h'
+    · exact h'
+    · rw [List.getElem?_eq_none_iff.2 h'] at hl; cases hl
+  have hstep : w.step (.discard i) =
+      { w with timers := w.timers.set i { t with observed := true, buf := 0, alive := false } } := by
+    simp [TW.step, TW.withTimer, hl, ha, Timer.observe, Timer.dropIt, hb]
+  have hl' : (w.step (.discard i)).timers[i]? = some { t with observed := true, buf := 0, alive := false } := by
+    rw [hstep]; simp [hlt]
+  have hin := ended_timer_inert (w.step (.discard i)) i _ hl' rfl
+  refine ⟨by rw [hstep], by rw [hstep], by rw [hstep], by rw [hstep], hin.2.2, hin.1⟩
+
+/-- at the level of one timer: observing without recording and then dropping delivers nothing,
+    for a shared and for a local timer alike — the drop does not record because the timer is
+    already marked observed, and there is nothing buffered to flush -/
+theorem discard_then_drop_delivers_nothing (t : Timer) (h : TimerOk t) :
+    (t.observe false).2 = 0 ∧ ((t.observe false).1.dropIt).2 = 0 ∧
+    ((t.observe false).1.dropIt).1.alive = false := by
+  obtain ⟨hb, _⟩ := h
+  simp [Timer.observe, Timer.dropIt, hb]
+
 /-- non-vacuity: two shared timers (one recorded, one discarded), a local timer dropped, a closure -/
 example : (([.start .shared, .start .shared, .start .local, .record 0, .discard 1, .drop 2, .closure, .drop 0, .pobs, .start .local, .drop 3, .pflush] : List TOp).foldl TW.step {}).shared = 5 := by
+  decide
+
+/-- non-vacuity for the local-timer theorems: a local timer recorded (index 0), one only dropped
+    (1), one discarded and dropped again (2), a closure: three observations, parent untouched -/
+example : (([.start .local, .start .local, .start .local, .record 0, .drop 1, .discard 2, .drop 2, .closure] : List TOp).foldl TW.step {}).shared = 3
+    ∧ (([.start .local, .start .local, .start .local, .record 0, .drop 1, .discard 2, .drop 2, .closure] : List TOp).foldl TW.step {}).parent = 0 := by
   decide
 
 end Prom.C18
